@@ -1482,6 +1482,10 @@ mod root {
         pub nhi: u32,
         /// every named count 0..=n (thorough) or {0..=11, n} (quick)
         pub all_named: bool,
+        /// records without a path do *not* carry NO_NAME_HASH (the writer then stores a zero
+        /// name hash for them; a manifest may consist of such records only)
+        #[serde(default)]
+        pub plain_unnamed: bool,
     }
 
     pub fn shards(tier: Tier) -> Vec<Shard> {
@@ -1491,7 +1495,13 @@ mod root {
                 for layout in 0..4u8 {
                     // record counts 0..=130, split into ranges only to balance the worker threads
                     for (nlo, nhi) in [(0u32, 39u32), (40, 69), (70, 89), (90, 104), (105, 118), (119, 130)] {
-                        v.push(Shard { ver, groups, layout, nlo, nhi, all_named: tier == Tier::Thorough });
+                        v.push(Shard { ver, groups, layout, nlo, nhi, all_named: tier == Tier::Thorough, plain_unnamed: false });
+                    }
+                    // the same without NO_NAME_HASH on the unnamed records (quick: two FDID layouts)
+                    if tier == Tier::Thorough || layout == 0 || layout == 3 {
+                        for (nlo, nhi) in [(0u32, 69u32), (70, 104), (105, 130)] {
+                            v.push(Shard { ver, groups, layout, nlo, nhi, all_named: tier == Tier::Thorough, plain_unnamed: true });
+                        }
                     }
                 }
             }
@@ -1537,8 +1547,8 @@ mod root {
     fn named_flags(ver: u8) -> u64 {
         if ver == 4 { ContentFlags::INSTALL | (1u64 << 33) } else { ContentFlags::INSTALL }
     }
-    fn unnamed_flags(_ver: u8) -> u64 {
-        ContentFlags::INSTALL | ContentFlags::NO_NAME_HASH
+    fn unnamed_flags(plain: bool) -> u64 {
+        if plain { ContentFlags::INSTALL } else { ContentFlags::INSTALL | ContentFlags::NO_NAME_HASH }
     }
 
     fn records(sh: &Shard, n: u32, k: u32) -> Vec<Rec> {
@@ -1561,7 +1571,7 @@ mod root {
                 Rec {
                     fdid,
                     loc: LOCS[(i % g) as usize],
-                    cf: if named { named_flags(sh.ver) } else { unnamed_flags(sh.ver) },
+                    cf: if named { named_flags(sh.ver) } else { unnamed_flags(sh.plain_unnamed) },
                     ckey,
                     hash: path.as_deref().map(calculate_name_hash),
                     path,
@@ -1594,7 +1604,7 @@ mod root {
             structure: "root",
             group: format!("V{}", sh.ver),
             group_of: Vec::new(),
-            params: format!("files={n},named={k},locales={},layout={}", sh.groups, sh.layout),
+            params: format!("files={n},named={k},locales={},layout={}{}", sh.groups, sh.layout, if sh.plain_unnamed { ",unnamed-without-NO_NAME_HASH" } else { "" }),
             wit: json!({"section": "root", "shard": sh, "n": n, "k": k}),
         };
         agg.cases += 1;
@@ -1699,7 +1709,8 @@ mod root {
                 }
                 Some(l) => {
                     // V1 always stores a name hash: not compared for records inserted without a name
-                    let name_ok = |h: Option<u64>| if sh.ver == 1 && r.hash.is_none() { true } else { h == r.hash };
+                    // (nor for records inserted without a name but without NO_NAME_HASH: the writer stores a hash for them)
+                    let name_ok = |h: Option<u64>| if (sh.ver == 1 || sh.plain_unnamed) && r.hash.is_none() { true } else { h == r.hash };
                     if l.len() != 1 || l[0].0 != r.cf || l[0].1 != r.ckey || !name_ok(l[0].2) {
                         ok = false;
                         cx.report(agg, "parse", "wrong-value", &lbl, || format!("FileDataID {} locale {:#x}: parsed (flags, ckey, name hash) {:x?}, inserted ({:#x}, {}, {:x?})", r.fdid, r.loc, l, r.cf, hx(&r.ckey), r.hash));
@@ -1745,7 +1756,7 @@ mod root {
         let model_by_hash = |h: u64, loc: u32, cf: u64| -> Vec<[u8; 16]> { recs.iter().filter(|r| r.hash == Some(h) && r.loc & loc != 0 && (r.cf & cf) == cf).map(|r| r.ckey).collect() };
 
         let locs = [LocaleFlags::ENUS, LocaleFlags::DEDE, LocaleFlags::FRFR, LocaleFlags::ALL];
-        let cfs = [ContentFlags::NONE, ContentFlags::INSTALL, named_flags(sh.ver), unnamed_flags(sh.ver), ContentFlags::BUNDLE];
+        let cfs = [ContentFlags::NONE, ContentFlags::INSTALL, named_flags(sh.ver), unnamed_flags(false), ContentFlags::BUNDLE];
         let (mut pos, mut neg) = (0u32, 0u32);
         // judge: `got` must be one of the acceptable keys (any matching record when several
         // blocks match), and must be None when nothing matches
